@@ -176,6 +176,13 @@ func (d *Disk) Release() {
 		}
 	}
 	disksMu.Unlock()
+	// connections of a dead process are never closed (their callers stay parked),
+	// so this object stays reachable through them: let go of the file contents
+	d.mu.Lock()
+	if d.dead {
+		d.files = map[string]*diskFile{}
+	}
+	d.mu.Unlock()
 }
 
 func diskFor(path string) *Disk {
